@@ -14,6 +14,20 @@ def slow_api(ctx, execs):
             for k in (1, 2, 3):
                 items.append((CURATED[nm], {"seed": 78 + k, "api_latency": lat, "hang_after": 4 * lat + 100, "max_inv": 14,
                                             "faults": {str(k): "invalid_param"}}))
+    # waits / step retries / condition polls inside a branch that is resumed IN-PROCESS by the local timer while a sibling keeps
+    # the invocation alive: the branch may only go on once an answer of the backend shows the timer's effect - also when the
+    # backend fires its timers late (`timer_lag`: its own latency, or a local clock that runs ahead)
+    conc = [{"nodes": [{"k": "par", "branches": [[{"k": "wait", "s": 1}, {"k": "step"}], [{"k": "step", "dur": 3.0}, {"k": "step"}]]}, {"k": "step"}]},
+            {"nodes": [{"k": "map", "branches": [[{"k": "step", "fail": 1, "max": 2}, {"k": "wait", "s": 2}], [{"k": "step", "dur": 2.5}, {"k": "step", "dur": 2.5}]]}]},
+            {"nodes": [{"k": "par", "branches": [[{"k": "wfc", "polls": 2}], [{"k": "wait", "s": 1}, {"k": "wait", "s": 1}], [{"k": "step", "dur": 4.0}]]}, {"k": "step"}]}]
+    for p in conc:
+        for k, lag in enumerate((0.0, 0.4, 3.0, 45.0) if ctx.quick else (0.0, 0.0, 0.2, 0.4, 1.0, 3.0, 10.0, 45.0)):
+            items.append((p, {"seed": 300 + k, "timer_lag": lag, "api_latency": (0.0, 0.05, 0.3)[k % 3], "max_inv": 14,
+                              "strategy": "pct" if k % 2 else "random"}))
+    # the same for sequential programs re-invoked (crash / Lambda retry) while a late timer is still outstanding
+    for nm in ["s01_step_wait_retry", "s16_wait_wait"]:
+        for k in range(3 if ctx.quick else 12):
+            items.append((CURATED[nm], {"seed": 320 + k, "timer_lag": (3.0, 45.0)[k % 2], "crash_prob": 0.6, "crash_max_step": 150, "max_inv": 16}))
     out = run_campaign(ctx, items)
     for e in out:
         for fn in (oracles.c03, oracles.c06, oracles.c07):
